@@ -477,6 +477,119 @@ func ruleL21(p *Prog, r *Report) {
 			r.Decide(bad == "", R, cons, pos, "every item of the raw write starts with a constant head that announces exactly the bytes that follow", bad)
 		}
 	}
+	// fixed-width length / count heads: the value written into a w-byte head must fit into w bytes. The encoders
+	// justify the narrowing by the slab size limit; that holds only for element lists whose every container is
+	// size-limited. A slab kind that can be exempt from the size limit (a field named anySize that is set somewhere)
+	// gives no bound to the lists inside it.
+	anySizeOwners := map[string]bool{}
+	for _, f := range funcs {
+		eachInstr(f, func(in ssa.Instruction) {
+			st, ok := in.(*ssa.Store)
+			if !ok {
+				return
+			}
+			fr, ok := asFieldAddr(st.Addr)
+			if !ok || fr.Field != "anySize" || fr.Owner == nil {
+				return
+			}
+			if c, ok := st.Val.(*ssa.Const); ok && c.Value != nil && c.Value.String() == "true" {
+				anySizeOwners[fr.Owner.Obj().Name()] = true
+			}
+		})
+	}
+	// which list types sit inside which slab kinds: a slab struct with a field of the list's interface / type
+	containerOf := func(listType string) []string {
+		var out []string
+		for _, nt := range p.rootNamedTypes() {
+			st, ok := nt.Underlying().(*types.Struct)
+			if !ok || !slabStructs[nt.Obj().Name()] {
+				continue
+			}
+			for i := 0; i < st.NumFields(); i++ {
+				ft := st.Field(i).Type()
+				if typeName(ft) == listType {
+					out = append(out, nt.Obj().Name())
+					continue
+				}
+				if it, ok := ft.Underlying().(*types.Interface); ok {
+					if lt := p.LookupType(listType); lt != nil && (types.Implements(types.NewPointer(lt), it) || types.Implements(lt, it)) && it.NumMethods() > 0 {
+						out = append(out, nt.Obj().Name())
+					}
+				}
+			}
+		}
+		return out
+	}
+	nHeads := 0
+	for _, f := range funcs {
+		if p.IsTestFile(f.Pos()) || isDiagnosticFile(p.Fset.Position(f.Pos()).Filename) {
+			continue
+		}
+		rn := recvName(f)
+		ord := 0
+		eachInstr(f, func(in ssa.Instruction) {
+			w, dst, v, ok := putUintWidth(in)
+			if !ok || w >= 8 {
+				return
+			}
+			// only heads that go into the CBOR stream through EncodeRawBytes of the same buffer
+			sl, ok := canon(dst).(*ssa.Slice)
+			if !ok {
+				return
+			}
+			feeds := false
+			eachInstr(f, func(z ssa.Instruction) {
+				c, ok := z.(ssa.CallInstruction)
+				if !ok {
+					return
+				}
+				g := c.Common().StaticCallee()
+				if g == nil || g.Name() != "EncodeRawBytes" || len(c.Common().Args) < 2 {
+					return
+				}
+				if s2, ok := canon(c.Common().Args[1]).(*ssa.Slice); ok && sameArrayBase(s2.X, sl.X) && instrDominates(in, z) {
+					feeds = true
+				}
+			})
+			if !feeds {
+				return
+			}
+			cv, ok := canon(v).(*ssa.Convert)
+			if !ok {
+				return
+			}
+			// narrowing of a length-derived value
+			lenDerived := sliceContains(cv.X, func(x ssa.Value) bool {
+				c, ok := x.(*ssa.Call)
+				if !ok {
+					return false
+				}
+				bi, ok := c.Call.Value.(*ssa.Builtin)
+				return ok && bi.Name() == "len"
+			}, 0, map[ssa.Value]bool{})
+			if !lenDerived {
+				return
+			}
+			ord++
+			nHeads++
+			n++
+			cons := fmt.Sprintf("length-fits-head:%s#%d", p.Name(f), ord)
+			var unbounded []string
+			conts := []string{rn}
+			if !slabStructs[rn] {
+				conts = containerOf(rn)
+			}
+			for _, c := range conts {
+				if anySizeOwners[c] {
+					unbounded = append(unbounded, c)
+				}
+			}
+			r.Decide(len(unbounded) == 0, R, cons, p.InstrPos(in),
+				"the list is only ever encoded inside size-limited slabs: its length is bounded by the slab size (L5: at most 65535 bytes)",
+				fmt.Sprintf("a length is narrowed to %d bytes for a fixed-width CBOR head, but the list can sit in a slab that is exempt from the size limit (%s.anySize: external collision groups), where nothing bounds it: past the head's range the written length wraps around and the register can no longer be decoded", w, strings.Join(unbounded, ", ")))
+		})
+	}
+	r.Floor(R, "fixed-width length heads", 3, nHeads)
 	r.Floor(R, "raw CBOR writes", 15, n)
 }
 
